@@ -13,7 +13,7 @@ import (
 
 // C19 — result statistics equal their definitions for every series.
 //
-// E4: every sequence of length 0..L over a 9-symbol alphabet (so every order
+// E4: every sequence of length 0..L over a 11-symbol alphabet (so every order
 // and tie pattern of every multiset occurs) against textbook definitions, and
 // every experiment assembled from a small menu of generation records against
 // aggregates recomputed directly from the records.
@@ -21,7 +21,7 @@ import (
 func init() { register("C19", "exploration", runC19, replayC19) }
 
 // two large values that are close to each other make the mean huge relative to the spread
-var c19Alphabet = []float64{-2.5, 0, 1, 1, 3, 1e10, 1e-10, 1e9 + 4, 1e9 + 7}
+var c19Alphabet = []float64{-1e10, -2.5, -1e-10, 0, 1, 1, 3, 1e10, 1e-10, 1e9 + 4, 1e9 + 7}
 
 func c19Series(idx, length int) experiment.Floats {
 	x := make(experiment.Floats, length)
@@ -692,7 +692,7 @@ func runC19(c *Ctx) {
 	}
 	c.Sample(map[string]interface{}{"experiment_trials": [][]int{{0, 2}, {1}}, "menu": c19GenMenu})
 	c.Extra["max_series_length"] = L
-	c.Assume("series values come from a 9-symbol alphabet; variance/stddev of a one-element series are only required not to panic (the unbiased estimator is 0/0)")
+	c.Assume("series values come from a 11-symbol alphabet; variance/stddev of a one-element series are only required not to panic (the unbiased estimator is 0/0)")
 }
 
 func replayC19(c *Ctx, rp *Replay) (bool, string) {
